@@ -130,6 +130,7 @@ func checkC15(w *World, r *Report) {
 	r.Rule("GEN-PAIR", "each genesis list is exported from and imported into the same collection", 4)
 	r.Rule("GEN-DUPKEY", "Validate's duplicate key = the store key's fields", 4)
 	r.Rule("KV-AGREE", "import keys each record by its own fields", 4)
+	r.Rule("GEN-VALID-END", "genesis validation checks schedules against the end time they were agreed for", 1)
 
 	tm := NewTerms(w)
 	initM, exportM := w.genesisFns()
@@ -335,6 +336,8 @@ func checkC15(w *World, r *Report) {
 		r.Check(ok, "KV-AGREE", construct, w.instrPos(s.in), what, why)
 	}
 
+	checkGenValidEnd(w, r, tm)
+
 	// ------------------------------------------------------------ GEN-DUPKEY
 	validate := w.methodOf(gs, "Validate")
 	if validate == nil {
@@ -418,6 +421,46 @@ func checkC15(w *World, r *Report) {
 			}
 		}
 		r.Check(same, "GEN-DUPKEY", construct, dupWhere[l], what, why)
+	}
+}
+
+// checkGenValidEnd: the vesting schedule is an agreed term validated at creation against msg.EndTime, which becomes
+// EndTimes[0]; later end times are appended by extension rounds without re-validating the schedule (EXT-APPEND,
+// IMMUT-FIELDS). A stored-record validator that compares the schedule with any other element of EndTimes rejects
+// reachable states (an auction in an extended round whose end time passed its first release time).
+func checkGenValidEnd(w *World, r *Report, tm *Terms) {
+	n := 0
+	for _, fn := range w.Funcs {
+		if p := pkgOf(fn); p == nil || p.Path() != typesPath || w.isGenerated(fn) {
+			continue
+		}
+		// validators of stored records: methods named by the AuctionI interface's Validate
+		obj := funcObj(fn)
+		if obj == nil || obj.Name() != "Validate" || recvNamed(obj) == nil {
+			continue
+		}
+		fr := tm.Root(fn)
+		for _, b := range fn.Blocks {
+			for _, in := range b.Instrs {
+				c, ok := in.(*ssa.Call)
+				if !ok || len(c.Call.Args) != 2 {
+					continue
+				}
+				a0 := tm.OperandAt(fr, in, c.Call.Args[0])
+				if fieldBase(a0, "VestingSchedules") == nil {
+					continue
+				}
+				n++
+				a1 := tm.OperandAt(fr, in, c.Call.Args[1])
+				ok2 := a1.Op == "elem" && a1.Name == "0" && fieldBase(a1.Args[0], "EndTimes") != nil
+				r.Check(ok2, "GEN-VALID-END", fnName(fn)+":schedule-vs-end-time", w.instrPos(in),
+					"the stored record's schedule is validated against EndTimes[0], the end time it was validated against at creation",
+					"the schedule is validated against "+a1.String()+": after an extension round the current end time may lie beyond the first release time, so the exported genesis of a reachable state is rejected by the module's own validation")
+			}
+		}
+	}
+	if n == 0 {
+		r.Fail("GEN-VALID-END", "anchor", typesPath, "a stored-record validator checks the vesting schedule", "no Validate method passes VestingSchedules to a schedule validator")
 	}
 }
 
